@@ -570,6 +570,14 @@ package rosmar
 //@   ensures [C10:OpenBucket.schema-once]      count("call:registerBucket") == 1 ==> (scanned(0) == 0 <==> count("call:Bucket.initializeSchema") == 1)
 //@   ensures [C10,C14:OpenBucket.rearms-expiry] err == nil && count("call:registerBucket") == 1 ==> (scanned(0) != 0 <==> count("call:Bucket._scheduleExpiration") == 1)
 //@   ensures [C20:OpenBucket.unlocked]         any: nolocks()
+// The facts of schema.sql and of the SQLite connection string that the SQL semantics and the isolation / atomicity
+// arguments rest on (they are assumptions of every other proof; here they are checked against the tree):
+//@   ensures [C01,C06,C11:OpenBucket.schema-one-row-per-key] any: schemaUnique("documents", "collection,key")
+//@   ensures [C11:OpenBucket.schema-collection-ids-never-reused] any: schemaCol("collections", "id", "autoincrement") && schemaUnique("collections", "scope,name")
+//@   ensures [C11:OpenBucket.schema-drop-cascades] any: schemaCol("documents", "collection", "cascade:collections") && schemaCol("designDocs", "collection", "cascade:collections")
+//@   ensures [C12:OpenBucket.schema-view-index-cascades] any: schemaCol("views", "designDoc", "cascade:designDocs") && schemaCol("mapped", "view", "cascade:views") && schemaCol("mapped", "doc", "cascade:documents") && schemaCol("views", "lastCas", "default:0") && schemaCol("views", "id", "autoincrement")
+//@   ensures [C05,C14,C17:OpenBucket.schema-defaults] any: schemaCol("documents", "tombstone", "default:0") && schemaCol("documents", "exp", "default:0") && schemaCol("documents", "cas", "notnull")
+//@   ensures [C03,C10,C11,C12:OpenBucket.connection-options] count("call:registerBucket") == 1 ==> connopt("_foreign_keys") == "1" && connopt("_txlock") == "immediate" && (connopt("_journal_mode") == "WAL" || connopt("_journal_mode") == "DELETE" || connopt("_journal_mode") == "TRUNCATE" || connopt("_journal_mode") == "PERSIST") && connopt("_busy_timeout") != "0"
 
 // ---------------------------------------------------------------------------------------------------------------
 // collection+xattrs.go: the xattr writers
